@@ -151,6 +151,18 @@ CHECKS["C01"] = dict(
     technique="TLA+ specification of the whole decode path evaluated by TLC on randomly generated documents and streams; end-state conformance against the real generator",
     design="5 C01")
 
+CHECKS["C16"] = dict(
+    text=("LoaderNs.tla models from_xtce's use of the process-wide namespace state (parse, set prefix, set map, lookups that read the "
+          "GLOBAL state, finish) over requests [document, namespace convention, prefix, unrelated xsi declaration, fault]; TLC explores "
+          "every history of <= 3 loads (invariant LookupSeesOwnDoc; action properties HistoryIndependent, FaultsFail). An edge cover of "
+          "the dumped graph is replayed in one process with random comment / whitespace / default-omission placement, comparing after "
+          "every load the outcome, the class-level namespace state and the projection of the loaded definition with the document's "
+          "normal form; random histories of 12 loads incl. the bundled and mission documents are validated by Trace_LoaderNs."),
+    note="Equality of definitions is judged by the harness's projection (project.py); file documents are compared with their own first "
+         "load. " + TRUSTED,
+    technique="TLA+ state-machine spec of the loader's namespace state, TLC exhaustive histories; edge-cover replay and trace validation of load histories",
+    design="5 C16")
+
 NOT_YET = {}
 for _i in range(1, 21):
     _p = f"C{_i:02d}"
